@@ -3,7 +3,12 @@ use simple_logger::SimpleLogger;
 use std::fs;
 use std::io::ErrorKind;
 use std::ops::{Deref, DerefMut};
+#[cfg(not(feature = "verif"))]
 use std::sync::{Arc, Condvar, Mutex};
+#[cfg(feature = "verif")]
+use std::sync::Arc;
+#[cfg(feature = "verif")]
+use teos::verif_sync::{Condvar, Mutex};
 use structopt::StructOpt;
 use tokio::task;
 use tonic::transport::{Certificate, Server, ServerTlsConfig};
